@@ -164,10 +164,14 @@ def run_verus_part(res, cfg, src, report_extra, modules=None, prefix=""):
         for f in failures:
             m = f["clause"] or f["body"]
             oid = verus.obligation_id(m) if m else None
-            if oid in ids2 and not f["rlimit"]:
-                keep.append(f)
+            if oid in ids2:
+                if f["rlimit"]:
+                    res.undecided.append("Verus resource limit exceeded twice (rlimit 30 and 120): %s (%s)" % (oid, f["message"]))
+                else:
+                    keep.append(f)
             else:
-                res.undecided.append("unstable or resource-limited Verus failure: %s (%s)" % (oid, f["message"]))
+                # discharged by the second run with a larger resource limit: a proof is a proof; noted for stability tracking
+                res.assumptions.append("obligation %s needed the larger Verus resource limit (rlimit 120) on this run" % oid)
         failures = keep
     if not prefix:
         res.fn_hashes = fn_hashes(src, report)
